@@ -4,6 +4,7 @@
 package c10
 
 import (
+	"context"
 	"crypto/tls"
 	"fmt"
 	"net"
@@ -27,6 +28,14 @@ import (
 
 func baseOpts() bubble.StackOpts {
 	return bubble.StackOpts{HandshakeTimeout: 10 * time.Second, Injectors: fingerproxy.DefaultHeaderInjectors()}
+}
+
+// binaryOpts: the proxy server as the binary builds it, with the default timeout flags
+func binaryOpts() bubble.StackOpts {
+	fingerproxy.VerifSetFlags(fingerproxy.VerifFlags{Probe: true, Flush: "100ms", Idle: "180s", Read: "60s", Write: "60s", TLSHandshake: "10s"})
+	return bubble.StackOpts{Injectors: fingerproxy.DefaultHeaderInjectors(), Build: func(ctx context.Context, h http.Handler, tc *tls.Config) *proxyserver.Server {
+		return fingerproxy.VerifDefaultProxyServer(ctx, h, tc)
+	}}
 }
 
 // control: a fresh h1 and a fresh h2 client must be served correctly, with their own fingerprints.
@@ -306,6 +315,14 @@ func TestCheck(t *testing.T) {
 			}
 		}
 	}
+	// a backend slower than the proxy's own timeouts (server built by the binary's constructor: write/read 60 s, idle 180 s)
+	for _, proto := range []string{"h1", "h2"} {
+		for _, k := range []int{30, 61, 125, 200} {
+			for v := 0; v < 3; v++ {
+				cases = append(cases, faults.Case{Kind: "slow-backend", Proto: proto, K: k, Val: v})
+			}
+		}
+	}
 	pcs := panicCases()
 	rep.Info["cases_total"] = len(cases) + len(pcs)
 	n := 0
@@ -316,7 +333,11 @@ func TestCheck(t *testing.T) {
 		}
 		cs := cs
 		ev.Journal("%s", cs)
-		res := faults.Run(t, cs, baseOpts(), helloH2, func(env *faults.Env) {
+		opts := baseOpts()
+		if cs.Kind == "slow-backend" {
+			opts = binaryOpts()
+		}
+		res := faults.Run(t, cs, opts, helloH2, func(env *faults.Env) {
 			rep.Add("evaluations", 1)
 			rep.Note("distinct_nontrivial", fmt.Sprintf("%s/%s/ops=%d/bytes=%d", cs.Kind, cs.Proto, env.Ops, env.Bytes))
 			rep.Sample(map[string]any{"case": cs.String(), "server_io_ops_on_victim_conn": env.Ops, "victim_bytes_on_wire": env.Bytes})
